@@ -145,7 +145,7 @@ class Run:
             self.counters["violations_duplicate_key"] += 1
             return
         self._vio_keys.add(key)
-        d = os.path.join(VERIF, "replays", self.prop)
+        d = os.path.join(os.environ.get("VERIF_REPLAY_DIR") or os.path.join(VERIF, "replays"), self.prop)
         os.makedirs(d, exist_ok=True)
         h = hashlib.sha256(json.dumps(jsonable(witness), sort_keys=True).encode()).hexdigest()[:12]
         path = os.path.join(d, f"{self.tier}-{self.seed}-{h}.json")
